@@ -519,7 +519,10 @@ def unordered(spec):
     """the three top-level lists as sorted lists of canonical JSON (comparison modulo declaration order)"""
     out = dict(spec)
     for k in ("categories", "assets", "associations"):
-        out[k] = sorted(spec.get(k, []), key=lambda x: json.dumps(x, sort_keys=True))
+        try:
+            out[k] = sorted(spec.get(k, []), key=lambda x: json.dumps(x, sort_keys=True))
+        except (ValueError, RecursionError):          # cyclic output of a broken compiler: leave as is
+            out[k] = list(spec.get(k, []))
     return out
 
 
@@ -929,7 +932,7 @@ def mutants_of(text, seed, per_kind=None):
         yield ("delete token %d %s %r" % (i, ty, tx[:20]), text[:a] + text[b + 1:])
     for i in pick(per_kind or n):
         ty, tx, a, b = toks[i]
-        for ins in ([rnd.choice(INSERT_TOKENS) for _ in range(2)] if per_kind else rnd.sample(INSERT_TOKENS, 6)):
+        for ins in ([rnd.choice(INSERT_TOKENS) for _ in range(2)] if per_kind else rnd.sample(INSERT_TOKENS, 4)):
             yield ("insert %r before token %d %s" % (ins, i, ty), text[:a] + " " + ins + " " + text[a:])
     for i in pick(per_kind or n):
         ty, tx, a, b = toks[i]
